@@ -396,7 +396,7 @@ def _judge(files: list, api: str, sp: str, as_path: bool, edit: list, st: Option
         exc = obs['exit_exc']
         d = _diff(before, after, meta=False)
         rootdir = os.path.dirname(os.path.normpath(_root(sp, as_path, '/x')[0]))
-        if isinstance(exc, FileNotFoundError) and rootdir == '':
+        if isinstance(exc, FileNotFoundError) and rootdir == '' and exc.filename == '':     # os.makedirs('')
             key = 'C16/bare-relative-path-exit-fails'
         else:
             key = f'C16/exit-raises[{apin}]'
